@@ -44,12 +44,12 @@ const (
 )
 
 type c09Image struct {
-	dir       string
-	prefix    string
-	kind      string
-	key       string
-	confirmed basics.Round // greatest r whose WaitForCommit(r)/Wait(r) had returned before the copy started
-	upper     basics.Round // number of blocks handed to AddBlock when the copy ended
+	dir        string
+	prefix     string
+	kind       string
+	key        string
+	confirmed  basics.Round // greatest r whose WaitForCommit(r)/Wait(r) had returned before the copy started
+	upper      basics.Round // number of blocks handed to AddBlock when the copy ended
 	firstStage bool         // taken around a catchpoint first stage
 	nontrivial bool
 }
@@ -91,7 +91,7 @@ type c09Spy struct {
 	first bool
 }
 
-func (s *c09Spy) loadFromDisk(ledgerForTracker, basics.Round) error          { return nil }
+func (s *c09Spy) loadFromDisk(ledgerForTracker, basics.Round) error           { return nil }
 func (s *c09Spy) newBlock(blk bookkeeping.Block, delta ledgercore.StateDelta) {}
 func (s *c09Spy) close()                                                      {}
 func (s *c09Spy) produceCommittingTask(committedRound basics.Round, dbRound basics.Round, dcr *deferredCommitRange) *deferredCommitRange {
